@@ -27,7 +27,7 @@ BRANCHES = ["linear", "tanh", "gelu_linear", "u_linear", "u_gelu", "sin_scale", 
 
 
 def gen_cases(tier: str, seed: int) -> List[Dict[str, Any]]:
-    n = 3000 if tier == "quick" else 80000
+    n = 3000 if tier == "quick" else 240000
     cases = []
     for i in range(n):
         rng = rng_for(seed, PROPERTY, i)
